@@ -72,7 +72,7 @@ CLAIMED = {
  "C12": dict(
    category="model_checking",
    text="FileFormat.tla fixes the .gr layout (header, index, 32/64-bit destinations, version 1 padding, edge data offsets, sub-range "
-        "slices) and ConvertAbs.tla the meaning of 13 graph-convert conversions over abstract graphs (edge-list/CSV/DIMACS parsing with "
+        "slices) and ConvertAbs.tla the meaning of 17 graph-convert conversions over abstract graphs (edge-list/CSV/DIMACS parsing with "
         "skipped lines and inferred node count, list output, transpose, symmetrise, clean, sort by destination/weight, random weights in "
         "range, endian swap). FileGraphWriter and toFile are byte-compared with an independent writer for both versions, void/4/8-byte "
         "data, odd and even edge counts; fromFile, fromFileInterleaved, partFromFile at every split, OCFileGraph segments, OfflineGraph "
